@@ -87,7 +87,17 @@ def strategy(tier):
         return dict(spec, children=[c for c in spec["children"] if c["key"] != "zzany"] + [extra])
     # (C02's fixed extras as well: secrets / bytes / digests inside list items, a config type and a nested schema give the
     # serialisation its deep steps - nested to_basic calls, several key contexts and cipher calls per save)
-    return worlds.schema_spec(tier).map(c02._augment).map(with_any).flatmap(hist)
+    def variant(t):
+        spec, k = t
+        if k == 0:
+            return with_any(spec)                      # the generated schema as it is
+        if k == 1:
+            # exactly one secret in the whole configuration: one key context, one cipher call per save
+            leaf = {"req": False, "validator": None, "default": {"mode": "none"}}
+            return with_any({"kind": "schema", "key": "", "children": [dict(leaf, kind="secure", key="only", opts={"method": "best"}),
+                                                                        dict(leaf, kind="str", key="label", opts={})]})
+        return with_any(c02._augment(spec))
+    return st.tuples(worlds.schema_spec(tier), st.sampled_from([0, 1, 2, 2])).map(variant).flatmap(hist)
 
 
 class Injector:
